@@ -9,7 +9,7 @@ def run(tier, seed):
     wd = vlib.workdir("C17")
     try:
         thorough = tier == "thorough"
-        n = 2000 if thorough else 240  # (6000 took more than four hours beside other jobs: TSan serialises the render threads)
+        n = 6000 if thorough else 240
         cfgs = [vlib.Config("c17", "tsan", "sse2", 1, 0, unit="char"), vlib.Config("c17", "tsan", "none", 0, 1, unit="char16_t"),
                 vlib.Config("c17", "asan", "avx2", 1, 1, unit="char")]
         bins = vlib.build_all(cfgs)
